@@ -160,6 +160,7 @@ func main() {
 			}
 		})
 	})
+	runLong(r)
 	runReal(r)
 	runPlugins(r)
 	cliStage(r)
@@ -434,5 +435,86 @@ func runPlugins(r *mon.Run) {
 	}
 	if r.Counter("failing_plugin_cases") == 0 {
 		r.Inconclusive("no failing plugin recipient was exercised")
+	}
+}
+
+// runLong: lists far longer than the enumerated ones. One recipient with a
+// different label set (a harness one, or the library's passphrase recipient)
+// stands at EVERY position of a list of n otherwise compatible recipients,
+// for n around the multiples of 8, 16, 32 and 64: refused, nothing written.
+func runLong(r *mon.Run) {
+	sizes := []int{9, 15, 16, 17, 31, 32, 33, 47, 48, 49, 64, 65}
+	if r.Thorough() {
+		sizes = append(sizes, 63, 96, 127, 128, 129, 200, 256, 257)
+	}
+	x := keys.P("X1").Recipient
+	spec := func(name string) labelSpec {
+		for _, a := range alphabet {
+			if a.name == name {
+				return a
+			}
+		}
+		panic(name)
+	}
+	type odd struct {
+		name string
+		mk   func(calls *int) age.Recipient
+		base string // label spec of the other recipients
+	}
+	odds := []odd{
+		{"{a}-among-absent", func(c *int) age.Recipient { return mk(spec("{a}"), 999, false, c) }, "absent"},
+		{"absent-among-{a}", func(c *int) age.Recipient { return mk(spec("absent"), 999, false, c) }, "{a}"},
+		{"[b,a]-among-[a,c]", func(c *int) age.Recipient { return mk(spec("[b,a]"), 999, false, c) }, "{a,c}"},
+		{"passphrase-among-native", func(c *int) age.Recipient { return keys.ScryptRecipient("pw", 2) }, "native"},
+		{"failing-among-absent", func(c *int) age.Recipient { return mk(spec("absent"), 999, true, c) }, "absent"},
+	}
+	for _, n := range sizes {
+		for _, o := range odds {
+			for pos := 0; pos < n; pos++ {
+				if n > 70 && pos%7 != 0 && pos != n-1 && pos%16 != 0 {
+					continue
+				}
+				calls := 0
+				rs := make([]age.Recipient, n)
+				for i := range rs {
+					switch {
+					case i == pos:
+						rs[i] = o.mk(&calls)
+					case o.base == "native":
+						rs[i] = x
+					default:
+						rs[i] = mk(spec(o.base), i, false, &calls)
+					}
+				}
+				dst := &mon.ObservingWriter{}
+				_, err := age.Encrypt(dst, rs...)
+				r.Eval(1)
+				desc := fmt.Sprintf("long list n=%d: %s at position %d", n, o.name, pos)
+				r.Distinct(desc)
+				r.Count("long_list_cases", 1)
+				replay := map[string]any{"n": n, "odd": o.name, "position": pos}
+				if err == nil {
+					r.Violate(fmt.Sprintf("accepted-incompatible:long-list:%s", o.name), fmt.Sprintf("Encrypt accepted %s (%d bytes written)", desc, dst.Len()), replay)
+				} else if dst.Len() != 0 {
+					r.Violate("bytes-on-refusal:long-list:"+o.name, fmt.Sprintf("%s: refused after %d bytes", desc, dst.Len()), replay)
+				}
+			}
+		}
+		// control: n compatible recipients are accepted
+		calls := 0
+		rs := make([]age.Recipient, n)
+		for i := range rs {
+			rs[i] = mk(spec("[a,b]"), i, false, &calls)
+			if i%2 == 1 {
+				rs[i] = mk(spec("[b,a]"), i, false, &calls)
+			}
+		}
+		if _, err := age.Encrypt(&mon.ObservingWriter{}, rs...); err != nil {
+			r.Violate("refused-compatible:long-list", fmt.Sprintf("Encrypt refused %d recipients with equal label sets: %v", n, err), map[string]any{"n": n})
+		}
+		r.Eval(1)
+	}
+	if r.Counter("long_list_cases") == 0 {
+		r.Inconclusive("no long recipient list was exercised")
 	}
 }
